@@ -539,9 +539,11 @@ class BaseNode402(RemoteNode):
         :raises RuntimeError: If the switch is not confirmed within the configured timeout.
         :raises ValueError: Trying to execute a illegal transition in the state machine.
         """
+        # Decode a single reading: the drive may change state between two reads
+        statusword = self.statusword
         for state, mask_val_pair in State402.SW_MASK.items():
             bitmask, bits = mask_val_pair
-            if self.statusword & bitmask == bits:
+            if statusword & bitmask == bits:
                 return state
         return 'UNKNOWN'
 
